@@ -721,7 +721,7 @@ pub fn run(args: &Args) {
     let ndict = args.n(30, 400);
     let per = args.n(30, 60);
     for _ in 0..ndict {
-        let lx = gen_lexica(&mut rng, false);
+        let lx = gen_lexica(&mut rng, false, 0);
         let w = match catch(|| world(lx.clone(), &cfg)) {
             Ok(Ok(w)) => w,
             other => {
